@@ -156,7 +156,7 @@ class More(Consumer):
     def attr(self, cx, base, attr, node):
         if base is None:
             if attr in ("all", "operator", "functools", "qu", "warnings", "numbers", "MatrixProductOperator", "ops",
-                        "SPECIAL_GATES", "TensorNetworkGenVector"):
+                        "SPECIAL_GATES", "TensorNetworkGenVector", "str", "int", "float"):
                 return cx.Opaque(attr)
             return NotImplemented
         if isinstance(base, Site):
@@ -167,6 +167,8 @@ class More(Consumer):
             return cx.Opaque(attr)
         if isinstance(base, Ref) and base.kind == "MPS" and attr in ("site_ind", "site_tag"):
             return BoundMethod(base, attr)
+        if isinstance(base, Ref) and base.kind == "MPS" and attr == "exponent":
+            return cx.Opaque("exponent")  # the stored scalar exponent: irrelevant to the isometry flags
         return MPSContract.attr(self, cx, base, attr, node)
 
     # -- ghost effects on single sites ---------------------------------------------------------
@@ -191,6 +193,14 @@ class More(Consumer):
             if isinstance(fn, BoundMethod) and isinstance(seq, (tuple, list)):
                 return tuple(self.call(cx, "." + fn.name, [fn.recv, x], {}, node) for x in seq)
             return cx.Opaque("map")
+        if name == "__isinstance__" and isinstance(args[0], Opaque) and args[1] in ("float", "int", "Integral", "numbers.Integral"):
+            return cx.Bool("isinstance")  # kind of an opaque scalar: unknown
+        if name == "__eq__" and (isinstance(args[0], Opaque) or isinstance(args[1], Opaque)):
+            return cx.Bool("eq")
+        if name == "__setattr__" and isinstance(args[0], Opaque):
+            return None  # attribute of a value outside the abstract state (a local sub-network, an array)
+        if isinstance(cx.env.get(name), tuple) and len(cx.env[name]) == 3 and cx.env[name][0] == "def":
+            return cx.call_closure(cx.env[name], args, kwargs)  # a nested def: its real body is executed inline
         if name == "__getitem__" and isinstance(args[0], Opaque):
             return cx.Opaque("item")
         if name == "__setitem__" and isinstance(args[0], Opaque):
@@ -296,6 +306,19 @@ class Canonicalize2(Canonicalize):
         return super().ensures(a, r, cx, case)
 
 
+def decorate(a):
+    """decorate_info of c08_mps (call-site model of @convert_cur_orthog = the proved contract of parse_cur_orthog), reading
+    the bound arguments through __dict__: `measure` has a parameter called `get`, which shadows NS.get"""
+    d = a.__dict__
+    opts = d.get("compress_opts") if isinstance(d.get("compress_opts"), dict) else {}
+    cur = opts.pop("cur_orthog", None)
+    info = d.get("info") if isinstance(d.get("info"), dict) else {}
+    if "cur_orthog" not in info:
+        info["cur_orthog"] = (cur, cur) if is_int(cur) else cur
+    a.info = info
+    return a
+
+
 class CalleeMixin:
     """use of a record-threading contract as a callee: @convert_cur_orthog modelled by decorate_info when `decorated`;
     the call-site obligations of `call_reqs`; then havoc + assume ensures (Contract.apply)"""
@@ -310,7 +333,7 @@ class CalleeMixin:
 
     def apply(self, cx, a, node, case=None):
         if self.decorated:
-            a = decorate_info(a)
+            a = decorate(a)
         self.pre_call(cx, a, node)
         oblige_all(cx, node, self.target.split(".")[-1], self.call_reqs(cx, a))
         self.snapshot(cx, a)
@@ -322,7 +345,7 @@ class CalleeMixin:
 
     def snapshot(self, cx, a):
         """remember the caller's record at entry (for `unchanged` clauses)"""
-        cx.ghost[("rec_in", self.target)] = rec_of(a.get("info"))
+        cx.ghost[("rec_in", self.target)] = rec_of(a.__dict__.get("info"))
 
     def rec_in(self, cx):
         return cx.ghost.get(("rec_in", self.target), ABSENT)
@@ -333,7 +356,7 @@ class CalleeMixin:
 
 
 @register
-class SingularValues2(CalleeMixin, SingularValues):
+class SingularValues2(CalleeMixin, More, SingularValues):
     """adds: the record afterwards is exactly (i, i); ValueError exactly when not 0 < i < L; use as a callee"""
 
     def ensures(self, a, r, cx, case):
@@ -373,7 +396,7 @@ class SingularValues2(CalleeMixin, SingularValues):
 
 
 @register
-class PartialTraceToDenseCanonical2(CalleeMixin, PartialTraceToDenseCanonical):
+class PartialTraceToDenseCanonical2(CalleeMixin, More, PartialTraceToDenseCanonical):
     """adds: info absent (None) / empty dict kinds, `where` of three sites, the record lies inside [min(where),
     max(where)], nothing outside the span of (old record, where) is touched; use as a callee (not decorated: a caller
     that passes no info keeps no record)"""
@@ -649,7 +672,11 @@ class ComputeLocalExpectationCanonical(CalleeMixin, More):
             ts = args[0]
             key = kwargs.get("key")
             if key is not None and cx.decide(ts.n > 0, node.lineno):
-                cx.apply_lambda(key, [ts.item(cx)])  # the key function is evaluated on every item: must be defined
+                # the key function is evaluated on every item: it must be defined there
+                if key[0] == "def":
+                    cx.call_closure(key, [ts.item(cx)])
+                else:
+                    cx.apply_lambda(key, [ts.item(cx)])
             return Terms(ts.n, ts.wk, ts.L)
         if name == ".values" and isinstance(args[0], OpaqueMap):
             return cx.Opaque("values")
@@ -859,8 +886,7 @@ class Measure(CalleeMixin, More):
              "above-not-yet-moved": And(*[Implies(q >= i, And(sel(f["isL"], q) == sel(m["isL"], q),
                                                               sel(f["isR"], q) == sel(m["isR"], q)))
                                           for q in (k, k + 1)])}  # (row k + 1 is the one that moves into row k)
-        rec = rec_of(v.info)
-        d["record"] = And(rec[0] == o.site, rec[1] == o.site) if is_pair(rec) else False
+        # (the record dict is not mentioned in the loop body, hence not havoc'd: nothing to restate about it)
         if not o.inplace:
             d["receiver-untouched"] = untouched(cx, o.self)
         return d
@@ -1232,8 +1258,12 @@ class GateWithAutoSwap(CalleeMixin, More):
     floor = 20
 
     def cases(self):
-        return [NS(name=f"inplace={ip},info={ik},swap_back={sb}", inplace=ip, ik=ik, sb=sb) for ip in (True, False)
-                for ik in info_kinds() for sb in (True, False)]
+        out = [NS(name=f"inplace={ip},info={ik},swap_back={sb},where=pair", inplace=ip, ik=ik, sb=sb, wk="pair")
+               for ip in (True, False) for ik in info_kinds() for sb in (True, False)]
+        # more than two sites: `i, j = where` raises ValueError before anything is touched
+        out += [NS(name=f"inplace={ip},info=pair,swap_back=True,where=triple", inplace=ip, ik="pair", sb=True, wk="triple")
+                for ip in (True, False)]
+        return out
 
     def inputs(self, cx, case):
         mps = new_mps(cx)
@@ -1241,11 +1271,22 @@ class GateWithAutoSwap(CalleeMixin, More):
         info = mk_info(cx, case.ik)
         for c in record_reqs(cx, mps, info).values():
             cx.assume(c)
-        i, j = cx.Int("i"), cx.Int("j")
-        cx.assume(And(0 <= i, i < L, 0 <= j, j < L, i != j))
+        where = mk_where(cx, case.wk, L, base="s")
+        cx.assume(And(*[where[x] != where[y] for x in range(len(where)) for y in range(x)]))
         cx.ghost[("rec_in", self.target)] = rec_of(info)
-        return dict(self=mps, G=cx.Opaque("G"), where=(i, j), info=info, swap_back=case.sb, inplace=case.inplace,
+        return dict(self=mps, G=cx.Opaque("G"), where=where, info=info, swap_back=case.sb, inplace=case.inplace,
                     compress_opts={})
+
+    def pre_call(self, cx, a, node):
+        if isinstance(a.where, (tuple, list)) and len(a.where) != 2:
+            raise PyRaise("ValueError", node.lineno)  # `i, j = where` (proved: case where=triple)
+
+    def ensures_raise(self, a, exc, cx, case):
+        if exc == "ValueError":
+            return {"raise-ValueError-only-if-where-is-not-a-pair": len(a.where) != 2,
+                    "receiver-untouched": untouched(cx, a.self),
+                    "record-untouched": same_record(cx, rec_of(a.info), self.rec_in(cx))}
+        return {f"no-raise-{exc}": False}
 
     def call_reqs(self, cx, a):
         L = cx.fields(a.self)["L"]
@@ -1526,7 +1567,8 @@ class GateNonlocal(SubmpoBase):
         opts = {} if case.sr == "absent" else {"sweep_reverse": case.sr}
         cx.ghost[("rec_in", self.target)] = rec_of(info)
         return dict(self=mps, G=cx.Opaque("G"), where=mk_where(cx, "pair", L), dims=None if case.dk == "None" else cx.Opaque("dims"),
-                    method=case.m, transpose=False, info=info, inplace=case.inplace, compress_opts=opts)
+                    method=case.m, transpose=False, info=info, inplace=case.inplace, dagger=cx.Bool("dagger"),
+                    compress_opts=opts)
 
 
 MPSContract.methods.update({"gate_with_submpo": f"{MPS}.gate_with_submpo", "gate_nonlocal": f"{MPS}.gate_nonlocal"})
@@ -1592,9 +1634,9 @@ class GateTN1D(SubmpoBase):
         out = []
         for ck in MPS_CONTRACT_KINDS:
             for wk in ("int", "pair", "triple"):
-                if (ck is True and wk != "int") or (ck == "swap+split" and wk == "triple"):
-                    continue  # outside the domain: contract=True on several sites leaves MPS form; 'swap+split' is a
-                    #           two-site mode (`i, j = where` raises for more)
+                if ck is True and wk != "int":
+                    continue  # outside the domain: contract=True on several sites leaves MPS form
+                # ('swap+split' is a two-site mode: with more sites gate_with_auto_swap raises ValueError, nothing touched)
                 for ip in (True, False):
                     for ik in ("absent", "empty", "pair", "calc"):
                         for m in ("direct", "lazy") if (ck in ("auto-mps", "nonlocal") and wk != "int") else ("direct",):
@@ -1640,6 +1682,21 @@ class GateTN1D(SubmpoBase):
     def method_of(self, a):
         return a.compress_opts.get("method", "direct") if isinstance(a.compress_opts, dict) else "direct"
 
+    def raises_unpack(self, a):
+        return a.contract == "swap+split" and len(self.sites(a)) > 2
+
+    def pre_call(self, cx, a, node):
+        if self.raises_unpack(a):
+            raise PyRaise("ValueError", node.lineno)
+
+    def ensures_raise(self, a, exc, cx, case):
+        if exc == "ValueError":
+            mps = self.the_mps(a)
+            return {"raise-ValueError-only-for-swap+split-on-more-than-two-sites": self.raises_unpack(a),
+                    "receiver-untouched": untouched(cx, mps),
+                    "record-untouched": same_record(cx, rec_of(a.info), self.rec_in(cx))}
+        return {f"no-raise-{exc}": False}
+
     def the_mps(self, a):
         return a.tn
 
@@ -1647,7 +1704,7 @@ class GateTN1D(SubmpoBase):
         mps = self.the_mps(a)
         L = cx.fields(mps)["L"]
         ws = self.sites(a)
-        d = {"contract-mode-keeps-MPS-form": self.route(a) != "unsupported",
+        d = {"contract-mode-keeps-MPS-form": self.route(a) != "unsupported" or self.raises_unpack(a),
              "sites-on-the-chain": And(*[And(0 <= w, w < L) for w in ws]),
              "sites-distinct": And(*[ws[x] != ws[y] for x in range(len(ws)) for y in range(x)])}
         d.update(record_reqs(cx, mps, a.info))
@@ -1735,6 +1792,12 @@ class VectorGate(GateTN1D):
     def call_reqs(self, cx, a):
         return super().call_reqs(cx, self.bound(a))
 
+    def pre_call(self, cx, a, node):
+        return super().pre_call(cx, self.bound(a), node)
+
+    def ensures_raise(self, a, exc, cx, case):
+        return super().ensures_raise(self.bound(a), exc, cx, case)
+
     def snapshot(self, cx, a):
         cx.ghost[("rec_in", self.target)] = rec_of(a.kwargs.get("info"))
 
@@ -1749,3 +1812,1185 @@ class VectorGate(GateTN1D):
 
 
 MPSContract.methods.update({"gate": f"{TN1DVEC}.gate"})
+
+
+# ------------------------------------------------------------------------------------------------
+# the MPS circuit simulators: class invariant  Sound(gate_opts["info"], _psi)
+# ------------------------------------------------------------------------------------------------
+
+FG = "quimb/tensor/circuit/gates.py"
+OPAQUE_FUNCS = OPAQUE_FUNCS + ("qu.swap",)
+
+
+class GateObj:
+    """a circuit Gate: target qubits, control qubits, special / label, the matrix (ghost: declared unitary)"""
+
+    def __init__(self, qubits, controls=(), special=False, label="U", array=None):
+        self.qubits, self.controls, self.special, self.label, self.array = tuple(qubits), tuple(controls), special, label, array
+        self.params, self.round, self.tag = (), None, None
+
+
+class Perm:
+    """CircuitPermMPS.qubits: the current physical order of the logical qubits -- a permutation of range(N) (its
+    bookkeeping is C07's matter; here: index() returns a site of the chain, distinct qubits sit on distinct sites)"""
+
+    def __init__(self, N):
+        self.N = N
+        self.seen = []
+
+
+class Counters:
+    """CircuitMPSLazy._uncompressed_sites: dict site -> number of pending lazy gates; ghost `nonempty`"""
+
+    def __init__(self, nonempty):
+        self.nonempty = nonempty
+
+    @property
+    def truth(self):
+        return self.nonempty
+
+
+CIRC_INFO_KINDS = ("empty", "None", "pair")
+
+
+def circ_info(cx, kind):
+    return {} if kind == "empty" else mk_info(cx, kind)
+
+
+def new_circuit(cx, ik, contract="auto-mps", convert_eager=True, **extra):
+    psi = new_mps(cx, "psi")
+    L = cx.fields(psi)["L"]
+    cx.assume(L >= 1)
+    info = circ_info(cx, ik)
+    gate_opts = {"contract": contract, "propagate_tags": False, "max_bond": cx.Opaque("max_bond"),
+                 "cutoff": cx.Opaque("cutoff"), "info": info}
+    circ = cx.new_obj("Circuit", _psi=psi, gate_opts=gate_opts, N=L, convert_eager=convert_eager, tag_gate_numbers=False,
+                      tag_gate_rounds=False, tag_gate_labels=False, _gates=[], **extra)
+    cx.ghost["circ0"] = dict(psi=psi, info=info, rec=rec_of(info))
+    return circ, psi, info
+
+
+def pending_of(cx, psi):
+    return psi.oid in cx.ghost.get("pending", {})
+
+
+def record_ok(cx, psi, info, prefix="class-invariant:"):
+    """the record of a circuit is absent / None (no claim) or a pair inside the chain that is sound for _psi"""
+    rec = rec_of(info)
+    if rec is ABSENT or rec is None:
+        return {}
+    if not is_pair(rec):
+        return {prefix + "record-is-absent-None-or-a-pair": False}
+    L = cx.fields(psi)["L"]
+    lo, hi = Min(rec[0], rec[1]), Max(rec[0], rec[1])
+    return {prefix + "record-in-range": And(0 <= lo, hi < L), prefix + "record-sound-for-_psi": Sound(cx, (lo, hi), psi)}
+
+
+def circuit_inv(cx, circ):
+    """class invariant at the end of a method: same state object, same shared record dict, and -- unless lazily applied
+    operators are pending (CircuitMPSLazy between compressions: no claim) -- the record is true of _psi"""
+    f = cx.fields(circ)
+    c0 = cx.ghost["circ0"]
+    d = {"class-invariant:_psi-is-the-same-object": f["_psi"] == c0["psi"],
+         "class-invariant:shared-record-dict-kept": f["gate_opts"].get("info") is c0["info"],
+         "class-invariant:length": cx.fields(f["_psi"])["L"] == f["N"]}
+    if not pending_of(cx, f["_psi"]):
+        d.update(record_ok(cx, f["_psi"], f["gate_opts"].get("info")))
+    return d
+
+
+class CircuitContract(SubmpoBase):
+    """shared modelling of the circuit classes.  Assumed leaves: _maybe_convert(psi, dtype) (dtype / backend conversion
+    of the arrays) and clear_storage() do not change which site tensors are isometries"""
+
+    floor = 5
+    decorated = False
+    supers = {}  # "method" -> target of the contract that `super().method(...)` resolves to
+
+    def attr(self, cx, base, attr, node):
+        if isinstance(base, GateObj):
+            if attr == "total_qubit_count":
+                return len(base.qubits) + len(base.controls)
+            if hasattr(base, attr):
+                return getattr(base, attr)
+            return NotImplemented
+        if isinstance(base, Ref) and base.kind == "Circuit" and attr == "num_gates":
+            return cx.Opaque("num_gates")
+        return super().attr(cx, base, attr, node)
+
+    def call(self, cx, name, args, kwargs, node):
+        if name.startswith("super().") and name[8:] in self.supers:
+            return cx.call_contract(REGISTRY[self.supers[name[8:]]], args, kwargs, node, recv=cx.env["self"])
+        if name == "__genexp__":
+            return cx.Opaque("items")
+        if name.startswith("."):
+            m, recv = name[1:], args[0]
+            if isinstance(recv, Ref) and recv.kind == "Circuit":
+                if m in ("_maybe_convert", "clear_storage"):
+                    return None
+                if m == "_maybe_convert_gate_array":
+                    return args[1]
+                if m in self.own_methods:
+                    return cx.call_contract(REGISTRY[self.own_methods[m]], args[1:], kwargs, node, recv=recv)
+            if isinstance(recv, GateObj):
+                if m == "copy_with":
+                    g = GateObj(kwargs.get("qubits", recv.qubits), kwargs.get("controls", recv.controls), recv.special,
+                                recv.label, recv.array)
+                    return g
+                if m == "build_mpo":
+                    return SubMPO(recv.controls + recv.qubits)
+            if isinstance(recv, Perm):
+                if m == "index":
+                    q = args[1]
+                    for q0, p0 in recv.seen:
+                        if q0 is q:
+                            return p0
+                    p = cx.Int("phys")
+                    cx.assume(And(0 <= p, p < recv.N))
+                    for q0, p0 in recv.seen:
+                        cx.assume((p == p0) == (q == q0))
+                    recv.seen.append((q, p))
+                    return p
+                if m in ("pop", "insert"):
+                    return cx.Opaque("qubit") if m == "pop" else None
+            if isinstance(recv, Counters):
+                if m == "get":
+                    n = cx.Int("count")
+                    cx.assume(n >= 0)
+                    return n
+                if m == "clear":
+                    recv.nonempty = z3.BoolVal(False)
+                    return None
+        if name == "__setitem__" and isinstance(args[0], Counters):
+            args[0].nonempty = z3.BoolVal(True)
+            return None
+        return super().call(cx, name, args, kwargs, node)
+
+    own_methods = {}
+
+    def on_dictcomp(self, cx, n):
+        return OpaqueMap()
+
+    # ---- use as a callee: the class invariant is required and re-established
+    def the_circ(self, a):
+        return a.self
+
+    def call_reqs(self, cx, a):
+        f = cx.fields(self.the_circ(a))
+        if pending_of(cx, f["_psi"]):
+            return {}
+        return {k.replace("class-invariant:", "class-invariant-"): v
+                for k, v in record_ok(cx, f["_psi"], f["gate_opts"].get("info")).items()}
+
+    def snapshot(self, cx, a):
+        f = cx.fields(self.the_circ(a))
+        cx.ghost[("circ_in", self.target)] = dict(psi=f["_psi"], info=f["gate_opts"].get("info"),
+                                                  rec=rec_of(f["gate_opts"].get("info")))
+
+    def modifies(self, a, case):
+        return []
+
+
+# ---- functions of circuit/gates.py that receive the record through **gate_opts --------------------------------------
+
+
+class PsiFn(CircuitContract):
+    """module-level helpers op(psi, ..., **gate_opts) with gate_opts['info'] the threaded record: afterwards the record
+    is true of psi (psi is modified in place), or -- method='lazy' -- an operator is left pending"""
+
+    def mk_opts(self, cx, case, psi):
+        info = circ_info(cx, case.ik)
+        for c in record_reqs(cx, psi, info).values():
+            cx.assume(c)
+        opts = {"max_bond": cx.Opaque("max_bond"), "cutoff": cx.Opaque("cutoff"), "info": info}
+        if case.get("m") == "lazy":
+            opts["method"] = "lazy"
+        cx.ghost[("rec_in", self.target)] = rec_of(info)
+        return opts
+
+    def lazy(self, a, cx=None):
+        return a.gate_opts.get("method") == "lazy" and self.uses_submpo(a, cx)
+
+    def uses_submpo(self, a, cx=None):
+        return True
+
+    def call_reqs(self, cx, a):
+        return record_reqs(cx, a.psi, a.gate_opts.get("info"))
+
+    def snapshot(self, cx, a):
+        cx.ghost[("rec_in", self.target)] = rec_of(a.gate_opts.get("info"))
+
+    def modifies(self, a, case):
+        return [(a.psi, ["isL", "isR"])]
+
+    def fresh_result(self, cx, a, case):
+        if self.lazy(a, cx):
+            self.pending(cx)[a.psi.oid] = (0, cx.fields(a.psi)["L"] - 1)
+        elif isinstance(a.gate_opts.get("info"), dict):
+            a.gate_opts["info"]["cur_orthog"] = (cx.Int("rec_a"), cx.Int("rec_b"))
+        return None
+
+    def ensures(self, a, r, cx, case):
+        d = {"length": cx.fields(a.psi)["L"] == cx.pre(a.psi)["L"]}
+        info = a.gate_opts.get("info")
+        if self.lazy(a, cx):
+            d["operator-left-pending"] = pending_of(cx, a.psi)
+            d["record-untouched"] = same_record(cx, rec_of(info), self.rec_in(cx))
+        elif isinstance(info, dict):
+            d.update(self.record_post(cx, NS(info=info), a.psi))
+        return d
+
+
+@register
+class ApplySwap(PsiFn):
+    target = f"{FG}::apply_swap"
+    floor = 20
+
+    def cases(self):
+        return [NS(name=f"contract={ck},info={ik},method={m}", ck=ck, ik=ik, m=m) for ck in ("auto-mps", "swap+split", "nonlocal")
+                for ik in CIRC_INFO_KINDS for m in (("direct", "lazy") if ck == "nonlocal" else ("direct",))]
+
+    def inputs(self, cx, case):
+        psi = new_mps(cx, "psi")
+        L = cx.fields(psi)["L"]
+        i, j = cx.Int("i"), cx.Int("j")
+        cx.assume(And(0 <= i, i < L, 0 <= j, j < L, i != j))
+        opts = self.mk_opts(cx, case, psi)
+        opts["contract"], opts["propagate_tags"] = case.ck, False
+        cx.ghost[("contract_in", self.target)] = case.ck
+        return dict(psi=psi, i=i, j=j, gate_opts=opts)
+
+    def attr(self, cx, base, attr, node):
+        if base is None and attr == "_MPS_METHODS":
+            return ("auto-mps", "nonlocal", "swap+split")  # (module constant of circuit/gates.py)
+        return super().attr(cx, base, attr, node)
+
+    def uses_submpo(self, a, cx=None):
+        # (the body pops "contract" from gate_opts: the value at entry is kept as a ghost)
+        return cx.ghost.get(("contract_in", self.target), a.gate_opts.get("contract")) == "nonlocal"
+
+    def snapshot(self, cx, a):
+        super().snapshot(cx, a)
+        cx.ghost[("contract_in", self.target)] = a.gate_opts.get("contract")
+
+    def call_reqs(self, cx, a):
+        L = cx.fields(a.psi)["L"]
+        d = {"two-distinct-sites-of-the-chain": And(0 <= a.i, a.i < L, 0 <= a.j, a.j < L, a.i != a.j),
+             "contract-mode-keeps-MPS-form": a.gate_opts.get("contract") in ("auto-mps", "nonlocal", "swap+split")}
+        d.update(super().call_reqs(cx, a))
+        return d
+
+
+@register
+class ApplyControlledGateMPS(PsiFn):
+    target = f"{FG}::_apply_controlled_gate_mps"
+    floor = 10
+
+    def cases(self):
+        return [NS(name=f"info={ik},method={m}", ik=ik, m=m) for ik in CIRC_INFO_KINDS for m in ("direct", "lazy")]
+
+    def mk_gate(self, cx, L):
+        c, t = cx.Int("ctrl"), cx.Int("targ")
+        cx.assume(And(0 <= c, c < L, 0 <= t, t < L, c != t))
+        return GateObj((t,), (c,), array=GateArray(cx.Bool("unitary")))
+
+    def inputs(self, cx, case):
+        psi = new_mps(cx, "psi")
+        return dict(psi=psi, gate=self.mk_gate(cx, cx.fields(psi)["L"]), tags=None, gate_opts=self.mk_opts(cx, case, psi))
+
+    def call_reqs(self, cx, a):
+        L = cx.fields(a.psi)["L"]
+        ws = a.gate.controls + a.gate.qubits
+        d = {"gate-sites-on-the-chain": And(*[And(0 <= w, w < L) for w in ws])}
+        d.update(super().call_reqs(cx, a))
+        return d
+
+
+@register
+class ApplyControlledGate(ApplyControlledGateMPS):
+    """contract in {'auto-mps', 'nonlocal'} -> _apply_controlled_gate_mps; 'swap+split' is not supported for controlled
+    gates (ValueError, nothing touched); the hyper-network modes leave MPS form (outside the domain)"""
+
+    target = f"{FG}::apply_controlled_gate"
+    floor = 10
+
+    def cases(self):
+        return [NS(name=f"contract={ck},info={ik},method={m}", ck=ck, ik=ik, m=m) for ck in ("auto-mps", "nonlocal", "swap+split")
+                for ik in CIRC_INFO_KINDS for m in ("direct", "lazy")]
+
+    def inputs(self, cx, case):
+        d = super().inputs(cx, case)
+        d.update(contract=case.ck, propagate_tags=False)
+        return d
+
+    def pre_call(self, cx, a, node):
+        if a.contract not in ("auto-mps", "nonlocal"):
+            if a.contract == "swap+split":
+                raise PyRaise("ValueError", node.lineno)
+            cx.oblige(f"call-pre@{node.lineno}:apply_controlled_gate:contract-mode-keeps-MPS-form", "call-pre", False, node.lineno)
+            raise PathEnd("outside the MPS domain")
+
+    def ensures_raise(self, a, exc, cx, case):
+        if exc == "ValueError":
+            return {"raise-ValueError-only-for-unsupported-contract-mode": a.contract not in ("auto-mps", "nonlocal"),
+                    "state-untouched": untouched(cx, a.psi),
+                    "record-untouched": same_record(cx, rec_of(a.gate_opts.get("info")), self.rec_in(cx))}
+        return {f"no-raise-{exc}": False}
+
+
+# ---- CircuitBase._apply_gate (circuit/core.py): every gate of the three MPS circuit classes goes through here --------
+
+GATE_KINDS = ("1q", "2q", "3q", "ctrl", "SWAP", "IDEN")
+# (default `contract` of the class, per-call gate_opts): CircuitMPS, CircuitPermMPS 1q / 2q, CircuitMPSLazy 1q / >= 2q,
+# and a circuit built with gate_contract='nonlocal'
+APPLY_MODES = (("auto-mps", "plain"), ("swap+split", "plain"), ("swap+split", "no-swap-back"), ("auto-mps", "lazy"),
+               ("nonlocal", "plain"))
+
+
+def mk_gate(cx, kind, L):
+    qs = {"1q": 1, "2q": 2, "3q": 3, "ctrl": 1, "SWAP": 2, "IDEN": 1}[kind]
+    sites = tuple(cx.Int(f"q{k}") for k in range(qs + (1 if kind == "ctrl" else 0)))
+    for s in sites:
+        cx.assume(And(0 <= s, s < L))
+    cx.assume(And(*[sites[x] != sites[y] for x in range(len(sites)) for y in range(x)]))
+    arr = GateArray(cx.Bool("unitary"))
+    if kind == "ctrl":
+        return GateObj(sites[:1], sites[1:], array=arr)
+    return GateObj(sites, (), special=kind in ("SWAP", "IDEN"), label=kind if kind in ("SWAP", "IDEN") else "U", array=arr)
+
+
+def gate_in_domain(cx, circ, gate, opts):
+    """stated precondition (DESIGN C08 domain note): a ONE-site gate goes through the generic contracted-gate route, which
+    does not interpret the record: it must be unitary or sit inside the recorded range"""
+    f = cx.fields(circ)
+    info = f["gate_opts"].get("info")
+    rec = rec_of(info)
+    if gate.controls or gate.special or len(gate.qubits) != 1 or not is_pair(rec):
+        return True
+    s = gate.qubits[0]
+    return Or(unitary_of(cx, gate.array), And(Min(rec[0], rec[1]) <= s, s <= Max(rec[0], rec[1])))
+
+
+@register
+class ApplyGate(CircuitContract):
+    """CircuitBase._apply_gate(gate, tags, **gate_opts): merges the per-call options over self.gate_opts (the shared
+    record dict `info` included) and applies the gate to self._psi IN PLACE through apply_controlled_gate (controls),
+    SPECIAL_GATES[label] (SWAP / IDEN) or _psi.gate_(G, qubits, **opts).   Class invariant preserved:
+    Sound(gate_opts['info'], _psi) afterwards (or a lazily applied operator is pending: CircuitMPSLazy, no claim until
+    the next compression).   Domain: contract modes that keep MPS form; tag_gate_* options off (MPS circuit default);
+    one-site gates unitary or inside the record; a controlled gate = one control + one target."""
+
+    target = f"{FCORE}::CircuitBase._apply_gate"
+    floor = 60
+    raises = {"ValueError": True}
+
+    def cases(self):
+        return [NS(name=f"gate={gk},contract={ck},opts={ok},info={ik}", gk=gk, ck=ck, ok=ok, ik=ik) for gk in GATE_KINDS
+                for ck, ok in APPLY_MODES for ik in CIRC_INFO_KINDS]
+
+    def inputs(self, cx, case):
+        circ, psi, info = new_circuit(cx, case.ik, contract=case.ck)
+        for c in record_reqs(cx, psi, info).values():
+            cx.assume(c)
+        gate = mk_gate(cx, case.gk, cx.fields(psi)["L"])
+        opts = {"plain": {}, "no-swap-back": {"swap_back": False}, "lazy": {"contract": "nonlocal", "method": "lazy"}}[case.ok]
+        if case.ok == "lazy" and len(gate.qubits) + len(gate.controls) == 1:
+            opts = {}  # CircuitMPSLazy applies one-qubit gates eagerly
+        cx.assume(gate_in_domain(cx, circ, gate, opts))
+        return dict(self=circ, gate=gate, tags=None, gate_opts=opts)
+
+    def call(self, cx, name, args, kwargs, node):
+        if name == "SPECIAL_GATES[gate.label]":
+            label = cx.env["gate"].label
+            if label == "IDEN":
+                return None
+            if label == "SWAP":
+                return cx.call_contract(REGISTRY[ApplySwap.target], args, kwargs, node)
+            raise Unsupported(f"special gate {label}")
+        return super().call(cx, name, args, kwargs, node)
+
+    # ---- callee use
+    def call_reqs(self, cx, a):
+        d = super().call_reqs(cx, a)
+        d["one-site-gate-unitary-or-inside-the-record"] = gate_in_domain(cx, a.self, a.gate, a.gate_opts)
+        # the per-call options this contract is proved for (APPLY_MODES): the shared record dict is never replaced,
+        # the contract mode only switched to the lazy non-local one
+        o = a.gate_opts
+        d["per-call-options-keep-the-shared-record-and-an-MPS-mode"] = (
+            set(o) <= {"swap_back", "contract", "method"} and ("contract" in o) == ("method" in o)
+            and o.get("contract", "nonlocal") == "nonlocal" and o.get("method", "lazy") == "lazy")
+        L = cx.fields(cx.fields(a.self)["_psi"])["L"]
+        ws = a.gate.controls + a.gate.qubits
+        d["gate-sites-distinct-and-on-the-chain"] = And(*([And(0 <= w, w < L) for w in ws] +
+                                                         [ws[x] != ws[y] for x in range(len(ws)) for y in range(x)]))
+        return d
+
+    def modifies(self, a, case):
+        return [(cx_psi, ["isL", "isR"]) for cx_psi in [a.__dict__["_psi"]]]
+
+    def apply(self, cx, a, node, case=None):
+        a.__dict__["_psi"] = cx.fields(a.self)["_psi"]
+        return super().apply(cx, a, node, case)
+
+    def pre_call(self, cx, a, node):
+        merged = dict(cx.fields(a.self)["gate_opts"], **a.gate_opts)
+        if merged.get("contract") == "swap+split" and (a.gate.controls or (not a.gate.special and len(a.gate.qubits) > 2)):
+            raise PyRaise("ValueError", node.lineno)  # (proved: raise clauses of this contract; nothing is touched)
+
+    def is_lazy(self, cx, a):
+        merged = dict(cx.fields(a.self)["gate_opts"], **a.gate_opts)
+        return merged.get("method") == "lazy" and merged.get("contract") == "nonlocal" and \
+            (len(a.gate.qubits) + len(a.gate.controls) >= 2) and a.gate.label != "IDEN"
+
+    def fresh_result(self, cx, a, case):
+        f = cx.fields(a.self)
+        psi, info = f["_psi"], f["gate_opts"].get("info")
+        if self.is_lazy(cx, a):
+            self.pending(cx)[psi.oid] = (0, cx.fields(psi)["L"] - 1)
+        elif not (a.gate.label == "IDEN" or (len(a.gate.qubits) == 1 and not a.gate.controls)) and isinstance(info, dict):
+            info["cur_orthog"] = (cx.Int("rec_a"), cx.Int("rec_b"))
+        return None
+
+    def ensures(self, a, r, cx, case):
+        d = circuit_inv(cx, a.self)
+        if self.is_lazy(cx, a):
+            d["operator-left-pending"] = pending_of(cx, cx.fields(a.self)["_psi"])
+        return d
+
+    def ensures_raise(self, a, exc, cx, case):
+        if exc == "ValueError":
+            merged = dict(cx.fields(a.self)["gate_opts"], **a.gate_opts)
+            swsp = merged.get("contract") == "swap+split"
+            d = {"raise-ValueError-only-for-a-controlled-or-3-site-gate-in-swap+split-mode":
+                 swsp and (bool(a.gate.controls) or (not a.gate.special and len(a.gate.qubits) > 2))}
+            d.update(circuit_inv(cx, a.self))
+            d["state-untouched"] = untouched(cx, cx.fields(a.self)["_psi"])
+            return d
+        return {f"no-raise-{exc}": False}
+
+
+# ---- CircuitMPS ---------------------------------------------------------------------------------------------------
+
+
+def psi_is_copy(a):
+    return a.dtype is not None or not a.__dict__["_eager"]
+
+
+class CircuitMethod(CircuitContract):
+    """methods of CircuitMPS and subclasses; cases enumerate dtype (None | given), convert_eager, record kind"""
+
+    contract_default = "auto-mps"
+    lazy_class = False
+
+    def base_cases(self):
+        return [NS(name=f"dtype={dk},convert_eager={ce},info={ik}", dk=dk, ce=ce, ik=ik) for dk in ("None", "given")
+                for ce in (True, False) for ik in CIRC_INFO_KINDS]
+
+    def mk(self, cx, case, **extra):
+        circ, psi, info = new_circuit(cx, case.ik, contract=self.contract_default, convert_eager=case.get("ce", True), **extra)
+        for c in record_reqs(cx, psi, info).values():
+            cx.assume(c)
+        return circ, psi, info
+
+    def dtype(self, cx, case):
+        return None if case.dk == "None" else cx.Opaque("dtype")
+
+    def apply(self, cx, a, node, case=None):
+        a.__dict__["_eager"] = cx.fields(a.self)["convert_eager"]
+        a.__dict__["_psi"] = cx.fields(a.self)["_psi"]
+        return super().apply(cx, a, node, case)
+
+    def entry(self, cx):
+        return cx.ghost.get(("circ_in", self.target)) or cx.ghost["circ0"]
+
+    needs_flat_state = False
+
+    def call_reqs(self, cx, a):
+        d = super().call_reqs(cx, a)
+        if self.needs_flat_state:
+            # the accessors of CircuitMPS read one tensor per site: no lazily applied operator may be pending
+            d["no-lazily-applied-operator-pending"] = not pending_of(cx, cx.fields(a.self)["_psi"])
+        return d
+
+
+@register
+class CircLocalExpectation(CircuitMethod):
+    """CircuitMPS.local_expectation(G, where, normalized, dtype, ...): canonicalises around `where` and reads the local
+    tensors.  convert_eager and dtype=None: self._psi itself is moved and the SHARED record follows it; otherwise a
+    converted COPY is moved together with a COPY of the record -- the shared record and _psi are unchanged."""
+
+    needs_flat_state = True
+    target = f"{FC}::CircuitMPS.local_expectation"
+    floor = 40
+
+    def cases(self):
+        return [NS(c.__dict__, name=c.name + f",where={wk}", wk=wk) for c in self.base_cases() for wk in ("int", "pair")]
+
+    def inputs(self, cx, case):
+        circ, psi, info = self.mk(cx, case)
+        where = mk_where(cx, case.wk, cx.fields(psi)["L"])
+        return dict(self=circ, G=cx.Opaque("G"), where=where, normalized=False, dtype=self.dtype(cx, case),
+                    simplify_sequence=None, simplify_atol=None, simplify_equalize_norms=None, backend=None, rehearse=None,
+                    contract_opts={}, _eager=case.ce)
+
+    def call_reqs(self, cx, a):
+        d = super().call_reqs(cx, a)
+        L = cx.fields(cx.fields(a.self)["_psi"])["L"]
+        lo, hi = where_range(a.where)
+        d["sites-on-the-chain"] = And(0 <= lo, hi < L)
+        return d
+
+    def modifies(self, a, case):
+        return [] if psi_is_copy(a) else [(a.__dict__["_psi"], ["isL", "isR"])]
+
+    def fresh_result(self, cx, a, case):
+        info = cx.fields(a.self)["gate_opts"].get("info")
+        if not psi_is_copy(a):
+            info["cur_orthog"] = (cx.Int("rec_a"), cx.Int("rec_b"))
+        return cx.Opaque("expec")
+
+    def ensures(self, a, r, cx, case):
+        d = circuit_inv(cx, a.self)
+        f = cx.fields(a.self)
+        rec = rec_of(f["gate_opts"].get("info"))
+        if psi_is_copy(a):
+            d["shared-record-unchanged"] = same_record(cx, rec, self.entry(cx)["rec"])
+            d["_psi-untouched"] = untouched(cx, f["_psi"])
+        else:
+            d["shared-record-is-a-pair"] = is_pair(rec)
+            if is_pair(rec):
+                lo, hi = where_range(a.where)
+                d["shared-record-inside-where"] = And(lo <= rec[0], rec[0] <= rec[1], rec[1] <= hi)
+        return d
+
+
+@register
+class CircFidelityEstimate(CircuitMethod):
+    """reader: with a record it takes the norm of the sites cmin..cmax only -- requires the record to be true of _psi
+    (obligation local-region-holds-the-centre, discharged from the class invariant) and ORDERED (it is read raw, without
+    min / max; every record the library writes is ordered)."""
+
+    needs_flat_state = True
+    target = f"{FC}::CircuitMPS.fidelity_estimate"
+    floor = 6
+
+    def cases(self):
+        return [NS(name=f"info={ik}", ik=ik) for ik in CIRC_INFO_KINDS]
+
+    def inputs(self, cx, case):
+        circ, psi, info = self.mk(cx, case)
+        rec = rec_of(info)
+        if is_pair(rec):
+            cx.assume(rec[0] <= rec[1])
+        return dict(self=circ)
+
+    def call_reqs(self, cx, a):
+        d = super().call_reqs(cx, a)
+        rec = rec_of(cx.fields(a.self)["gate_opts"].get("info"))
+        if is_pair(rec):
+            d["record-ordered"] = rec[0] <= rec[1]
+        return d
+
+    def fresh_result(self, cx, a, case):
+        return cx.Opaque("fidelity")
+
+    def ensures(self, a, r, cx, case):
+        d = circuit_inv(cx, a.self)
+        f = cx.fields(a.self)
+        d["shared-record-unchanged"] = same_record(cx, rec_of(f["gate_opts"].get("info")), self.entry(cx)["rec"])
+        d["_psi-untouched"] = untouched(cx, f["_psi"])
+        return d
+
+
+@register
+class CircSample(CircuitMethod):
+    """CircuitMPS.sample: generator over psi.sample(C, seed) (psi = _psi or a converted copy): MatrixProductState.sample
+    only reads its receiver and is handed no record -- _psi and the shared record are unchanged"""
+
+    needs_flat_state = True
+    target = f"{FC}::CircuitMPS.sample"
+    floor = 20
+
+    def cases(self):
+        return self.base_cases()
+
+    def sample_inputs(self, cx, case, **extra):
+        circ, psi, info = self.mk(cx, case, **extra)
+        d = dict(self=circ, C=cx.Int("C"), seed=None, dtype=self.dtype(cx, case), _eager=case.ce)
+        for k in ("qubits", "order", "group_size", "max_marginal_storage", "optimize", "backend", "simplify_sequence",
+                  "simplify_atol", "simplify_equalize_norms"):
+            d[k] = None
+        return d
+
+    def inputs(self, cx, case):
+        return self.sample_inputs(cx, case)
+
+    def inv(self, v):
+        cx = v.cx
+        d = circuit_inv(cx, v.old.self)
+        f = cx.fields(v.old.self)
+        d["shared-record-unchanged"] = same_record(cx, rec_of(f["gate_opts"].get("info")), cx.ghost["circ0"]["rec"])
+        d["_psi-untouched"] = untouched(cx, f["_psi"])
+        return d
+
+    @property
+    def loops(self):
+        return {0: Loop("for (config, _) in psi.sample(C, seed=seed)", self.inv)}
+
+    def fresh_result(self, cx, a, case):
+        return SymIter(If(a.C >= 0, a.C, 0), lambda t: cx.Opaque("bitstring"))
+
+    def ensures(self, a, r, cx, case):
+        d = circuit_inv(cx, a.self)
+        f = cx.fields(a.self)
+        d["shared-record-unchanged"] = same_record(cx, rec_of(f["gate_opts"].get("info")), self.entry(cx)["rec"])
+        d["_psi-untouched"] = untouched(cx, f["_psi"])
+        return d
+
+
+@register
+class CircGetPsi(CircuitMethod):
+    needs_flat_state = True
+    target = f"{FC}::CircuitMPS.get_psi"
+    floor = 6
+
+    def cases(self):
+        return [NS(name=f"convert_eager={ce},info={ik}", ce=ce, ik=ik, dk="None") for ce in (True, False) for ik in CIRC_INFO_KINDS]
+
+    def inputs(self, cx, case):
+        circ, psi, info = self.mk(cx, case)
+        return dict(self=circ)
+
+    def fresh_result(self, cx, a, case):
+        f = cx.fields(cx.fields(a.self)["_psi"])
+        return cx.new_obj("MPS", L=f["L"], cyclic=f["cyclic"], isL=f["isL"], isR=f["isR"])
+
+    def ensures(self, a, r, cx, case):
+        d = circuit_inv(cx, a.self)
+        f = cx.fields(a.self)
+        d["returns-a-copy"] = isinstance(r, Ref) and r != f["_psi"]
+        d["shared-record-unchanged"] = same_record(cx, rec_of(f["gate_opts"].get("info")), self.entry(cx)["rec"])
+        d["_psi-untouched"] = untouched(cx, f["_psi"])
+        return d
+
+
+# ---- CircuitPermMPS -----------------------------------------------------------------------------------------------
+
+
+class PermMethod(CircuitMethod):
+    contract_default = "swap+split"
+
+    def mk(self, cx, case, **extra):
+        circ, psi, info = super().mk(cx, case, **extra)
+        cx.fields(circ)["qubits"] = Perm(cx.fields(psi)["L"])
+        return circ, psi, info
+
+
+@register
+class PermApplyGate(PermMethod):
+    """CircuitPermMPS._apply_gate: translates the logical qubits to their physical sites, records the move a two-site
+    gate without swap-back causes, and hands over to CircuitBase._apply_gate with swap_back=False: class invariant
+    preserved.  (That the permutation bookkeeping matches the state is C07's matter.)  One-qubit gates: unitary."""
+
+    target = f"{FC}::CircuitPermMPS._apply_gate"
+    floor = 20
+    supers = {"_apply_gate": ApplyGate.target}
+
+    def cases(self):
+        return [NS(name=f"gate={gk},info={ik}", gk=gk, ik=ik, ce=True) for gk in ("1q", "2q", "3q", "ctrl", "SWAP", "IDEN")
+                for ik in CIRC_INFO_KINDS]
+
+    def inputs(self, cx, case):
+        circ, psi, info = self.mk(cx, case)
+        gate = mk_gate(cx, case.gk, cx.fields(psi)["L"])
+        cx.assume(unitary_of(cx, gate.array))
+        return dict(self=circ, gate=gate, tags=None, gate_opts={})
+
+    # ---- callee use
+    def pre_call(self, cx, a, node):
+        if a.gate.controls or (not a.gate.special and len(a.gate.qubits) > 2):
+            raise PyRaise("ValueError", node.lineno)  # (proved: raise clauses of this contract; nothing is touched)
+
+    def call_reqs(self, cx, a):
+        d = super().call_reqs(cx, a)
+        L = cx.fields(cx.fields(a.self)["_psi"])["L"]
+        ws = a.gate.controls + a.gate.qubits
+        d["gate-qubits-distinct-and-in-range"] = And(*([And(0 <= w, w < L) for w in ws] +
+                                                      [ws[x] != ws[y] for x in range(len(ws)) for y in range(x)]))
+        d["one-qubit-gate-unitary"] = unitary_of(cx, a.gate.array) if len(ws) == 1 else True
+        d["no-per-call-options"] = not a.gate_opts
+        return d
+
+    def modifies(self, a, case):
+        return [(a.__dict__["_psi"], ["isL", "isR"])]
+
+    def fresh_result(self, cx, a, case):
+        info = cx.fields(a.self)["gate_opts"].get("info")
+        if not (a.gate.label == "IDEN" or len(a.gate.qubits) == 1) and isinstance(info, dict):
+            info["cur_orthog"] = (cx.Int("rec_a"), cx.Int("rec_b"))
+        return None
+
+    def ensures(self, a, r, cx, case):
+        return circuit_inv(cx, a.self)
+
+    def ensures_raise(self, a, exc, cx, case):
+        if exc == "ValueError":
+            d = {"raise-ValueError-only-for-a-controlled-or-3-site-gate": bool(a.gate.controls) or
+                 (not a.gate.special and len(a.gate.qubits) > 2)}
+            d.update(circuit_inv(cx, a.self))
+            d["state-untouched"] = untouched(cx, cx.fields(a.self)["_psi"])
+            return d
+        return {f"no-raise-{exc}": False}
+
+
+@register
+class PermLocalExpectation(PermMethod):
+    target = f"{FC}::CircuitPermMPS.local_expectation"
+    floor = 20
+    supers = {"local_expectation": CircLocalExpectation.target}
+
+    def cases(self):
+        return [NS(c.__dict__, name=c.name + f",where={wk}", wk=wk) for c in self.base_cases() for wk in ("int", "pair")]
+
+    def inputs(self, cx, case):
+        circ, psi, info = self.mk(cx, case)
+        where = mk_where(cx, case.wk, cx.fields(psi)["L"])
+        if not is_int(where):
+            cx.assume(where[0] != where[1])
+        kw = {} if case.dk == "None" else {"dtype": cx.Opaque("dtype")}
+        return dict(self=circ, G=cx.Opaque("G"), where=where, args=(), kwargs=kw, _eager=case.ce,
+                    dtype=kw.get("dtype"))
+
+    def ensures(self, a, r, cx, case):
+        d = circuit_inv(cx, a.self)
+        f = cx.fields(a.self)
+        if psi_is_copy(a):
+            d["shared-record-unchanged"] = same_record(cx, rec_of(f["gate_opts"].get("info")), self.entry(cx)["rec"])
+            d["_psi-untouched"] = untouched(cx, f["_psi"])
+        else:
+            d["shared-record-is-a-pair"] = is_pair(rec_of(f["gate_opts"].get("info")))
+        return d
+
+
+@register
+class PermSample(CircSample):
+    target = f"{FC}::CircuitPermMPS.sample"
+    contract_default = "swap+split"
+
+    def inputs(self, cx, case):
+        d = self.sample_inputs(cx, case)
+        cx.fields(d["self"])["qubits"] = Perm(cx.fields(d["self"])["N"])
+        return d
+
+
+# ---- CircuitMPSLazy -----------------------------------------------------------------------------------------------
+
+
+class LazyCounters(Counters):
+    """_uncompressed_sites with its ghost `nonempty` kept in the circuit's heap record (havoc'd at loop heads)"""
+
+    def __init__(self, heap_fields):
+        self.h = heap_fields
+
+    @property
+    def nonempty(self):
+        return self.h["_nonempty"]
+
+    @nonempty.setter
+    def nonempty(self, v):
+        self.h["_nonempty"] = v
+
+
+def lazy_inv(cx, circ):
+    """CircuitMPSLazy: lazily applied operators pending => some site counter is non-zero (so the next _compress really
+    compresses); nothing pending => the record is true of _psi"""
+    f = cx.fields(circ)
+    d = circuit_inv(cx, circ)
+    if pending_of(cx, f["_psi"]):
+        d["class-invariant:pending-operators-are-counted"] = f["_nonempty"]
+    return d
+
+
+class LazyMethod(CircuitMethod):
+    ghost_fields = ("isL", "isR", "_nonempty")
+
+    def lazy_cases(self, extra=((),)):
+        return [NS(name=f"info={ik},pending={pd}", ik=ik, pd=pd, ce=True, dk="None") for ik in CIRC_INFO_KINDS for pd in (True, False)]
+
+    def mk(self, cx, case, sweep="absent", **extra):
+        psi_info = new_circuit(cx, case.ik, contract="auto-mps", convert_eager=case.get("ce", True))
+        circ, psi, info = psi_info
+        f = cx.fields(circ)
+        f["_nonempty"] = cx.Bool("nonempty")
+        f["_uncompressed_sites"] = LazyCounters(f)
+        f["compress_every"] = cx.Int("compress_every")
+        f["compress_opts"] = dict({"max_bond": cx.Opaque("max_bond"), "cutoff": cx.Opaque("cutoff"), "method": "dm"},
+                                  **({} if sweep == "absent" else {"sweep_reverse": sweep}))
+        if case.get("pd"):
+            self.pending(cx)[psi.oid] = (0, cx.fields(psi)["L"] - 1)
+            cx.assume(f["_nonempty"])
+        else:
+            for c in record_reqs(cx, psi, info).values():
+                cx.assume(c)
+        cx.ghost["circ0"]["pending"] = bool(case.get("pd"))
+        return circ, psi, info
+
+    def call_reqs(self, cx, a):
+        f = cx.fields(a.self)
+        d = super().call_reqs(cx, a)
+        if pending_of(cx, f["_psi"]):
+            d["class-invariant-pending-operators-are-counted"] = f["_nonempty"]
+        return d
+
+    def call(self, cx, name, args, kwargs, node):
+        if name == "tensor_network_1d_compress" and isinstance(args[0], Ref) and args[0].kind == "MPS":
+            # [assumed leaf, DESIGN C08 *A*] the whole chain: centre at site 0 (at L-1 if sweep_reverse), every lazily
+            # applied operator contracted in
+            mps = args[0]
+            L = cx.fields(mps)["L"]
+            if kwargs.get("inplace") is not True:
+                raise Unsupported("tensor_network_1d_compress of the circuit state not in place")
+            if kwargs.get("sweep_reverse", False):
+                havoc_region(cx, mps, 0, L - 1, isL_in=lambda k: k < L - 1)
+            else:
+                havoc_region(cx, mps, 0, L - 1, isR_in=lambda k: k > 0)
+            self.pending(cx).pop(mps.oid, None)
+            return mps
+        return super().call(cx, name, args, kwargs, node)
+
+
+@register
+class LazyCompress(LazyMethod):
+    """CircuitMPSLazy._compress: nothing to do when no site counter is set; else the whole state is compressed in place and
+    the shared record is WRITTEN: (0, 0), or (N-1, N-1) with sweep_reverse -- true of _psi by the compression leaf"""
+
+    target = f"{FC}::CircuitMPSLazy._compress"
+    floor = 20
+
+    def cases(self):
+        return [NS(c.__dict__, name=c.name + f",sweep_reverse={sr}", sr=sr) for c in self.lazy_cases() for sr in ("absent", True, False)]
+
+    def inputs(self, cx, case):
+        circ, psi, info = self.mk(cx, case, sweep=case.sr)
+        cx.ghost["nonempty0"] = cx.fields(circ)["_nonempty"]
+        return dict(self=circ)
+
+    def modifies(self, a, case):
+        return [(a.__dict__["_psi"], ["isL", "isR"]), (a.self, ["_nonempty"])]
+
+    def snapshot(self, cx, a):
+        super().snapshot(cx, a)
+        cx.ghost["nonempty0"] = cx.fields(a.self)["_nonempty"]
+        cx.ghost[("pending_in", self.target)] = pending_of(cx, cx.fields(a.self)["_psi"])
+
+    def fresh_result(self, cx, a, case):
+        f = cx.fields(a.self)
+        info = f["gate_opts"].get("info")
+        rec0 = rec_of(info)
+        ne = cx.ghost["nonempty0"]
+        # (when nothing was counted, nothing is pending -- class invariant -- and nothing changes)
+        was_pending = cx.ghost[("pending_in", self.target)]
+        self.pending(cx).pop(f["_psi"].oid, None)
+        if was_pending or not is_pair(rec0):
+            # the counters were set (pending => counted) or the record kind may change: model the compressing branch
+            # when counted, else leave everything
+            if cx.decide(ne, 0):
+                info["cur_orthog"] = (cx.Int("rec_a"), cx.Int("rec_b"))
+        else:
+            ra, rb = cx.Int("rec_a"), cx.Int("rec_b")
+            cx.assume(Implies(Not(ne), And(ra == rec0[0], rb == rec0[1])))
+            info["cur_orthog"] = (ra, rb)
+        return None
+
+    def ensures(self, a, r, cx, case):
+        f = cx.fields(a.self)
+        psi, info = f["_psi"], f["gate_opts"].get("info")
+        d = circuit_inv(cx, a.self)
+        d["nothing-pending-afterwards"] = not pending_of(cx, psi)
+        ne0 = cx.ghost["nonempty0"]
+        rec, rec0 = rec_of(info), self.entry(cx)["rec"]
+        sr = bool(f["compress_opts"].get("sweep_reverse", False))
+        c = f["N"] - 1 if sr else 0
+        if is_pair(rec):
+            d["record-is-the-first-site-(last-if-sweep_reverse)-after-a-compression"] = Implies(ne0, And(rec[0] == c, rec[1] == c))
+        d["counters-cleared"] = Not(f["_nonempty"])
+        d["no-compression-without-counted-gates"] = Implies(Not(ne0), And(untouched(cx, psi), same_record(cx, rec, rec0)))
+        d["record-written-by-a-compression"] = Implies(ne0, is_pair(rec))
+        return d
+
+
+class LazyDelegating(LazyMethod):
+    """`self._compress(); return super().method(...)`: the pending operators are flushed first, so the parent method
+    finds (and keeps) a true record"""
+
+    own_methods = {"_compress": LazyCompress.target}
+
+    def cases(self):
+        return self.lazy_cases()
+
+    # ---- callee use: everything of _psi and the record may change (a compression), the result is opaque / a copy
+    def modifies(self, a, case):
+        return [(a.__dict__["_psi"], ["isL", "isR"]), (a.self, ["_nonempty"])]
+
+    def fresh_result(self, cx, a, case):
+        f = cx.fields(a.self)
+        psi, info = f["_psi"], f["gate_opts"].get("info")
+        if isinstance(info, dict) and (is_pair(rec_of(info)) or cx.decide(cx.Bool("compressed_first"), 0)):
+            info["cur_orthog"] = (cx.Int("rec_a"), cx.Int("rec_b"))
+        self.pending(cx).pop(psi.oid, None)
+        return self.result_value(cx, a)
+
+    def result_value(self, cx, a):
+        return cx.Opaque("value")
+
+    def ensures(self, a, r, cx, case):
+        d = lazy_inv(cx, a.self)
+        d["nothing-pending-afterwards"] = not pending_of(cx, cx.fields(a.self)["_psi"])
+        return d
+
+
+@register
+class LazyLocalExpectation(LazyDelegating):
+    target = f"{FC}::CircuitMPSLazy.local_expectation"
+    floor = 10
+    supers = {"local_expectation": CircLocalExpectation.target}
+
+    def inputs(self, cx, case):
+        circ, psi, info = self.mk(cx, case)
+        return dict(self=circ, G=cx.Opaque("G"), where=mk_where(cx, "pair", cx.fields(psi)["L"]), args=(), kwargs={})
+
+
+@register
+class LazyFidelityEstimate(LazyDelegating):
+    target = f"{FC}::CircuitMPSLazy.fidelity_estimate"
+    floor = 8
+    supers = {"fidelity_estimate": CircFidelityEstimate.target}
+
+    def inputs(self, cx, case):
+        circ, psi, info = self.mk(cx, case)
+        rec = rec_of(info)
+        if is_pair(rec):
+            cx.assume(rec[0] <= rec[1])
+        return dict(self=circ)
+
+
+@register
+class LazyGetPsi(LazyDelegating):
+    target = f"{FC}::CircuitMPSLazy.get_psi"
+    floor = 8
+    supers = {"get_psi": CircGetPsi.target}
+
+    def result_value(self, cx, a):
+        return new_mps(cx, "copy", L=cx.fields(cx.fields(a.self)["_psi"])["L"])
+
+    def inputs(self, cx, case):
+        circ, psi, info = self.mk(cx, case)
+        return dict(self=circ)
+
+
+@register
+class LazySample(LazyDelegating):
+    target = f"{FC}::CircuitMPSLazy.sample"
+    floor = 8
+    supers = {"sample": CircSample.target}
+
+    def inputs(self, cx, case):
+        circ, psi, info = self.mk(cx, case)
+        return dict(self=circ, C=cx.Int("C"), args=(), kwargs={})
+
+
+@register
+class LazyApplyGate(LazyMethod):
+    """CircuitMPSLazy._apply_gate: one-qubit gates are applied eagerly (parent route); a gate on >= 2 qubits first
+    triggers _compress() if a site of its span already carries compress_every pending gates, then counts itself on every
+    site of its span and is attached lazily (contract='nonlocal', method='lazy'): afterwards an operator is pending AND
+    counted -- the next accessor compresses and re-establishes the record.  One-qubit gates: unitary."""
+
+    target = f"{FC}::CircuitMPSLazy._apply_gate"
+    floor = 30
+    supers = {"_apply_gate": ApplyGate.target}
+    own_methods = {"_compress": LazyCompress.target}
+
+    def cases(self):
+        return [NS(c.__dict__, name=c.name + f",gate={gk}", gk=gk) for c in self.lazy_cases() for gk in ("1q", "2q", "3q", "ctrl")]
+
+    def inputs(self, cx, case):
+        circ, psi, info = self.mk(cx, case)
+        gate = mk_gate(cx, case.gk, cx.fields(psi)["L"])
+        cx.assume(unitary_of(cx, gate.array))
+        return dict(self=circ, gate=gate, tags=None, gate_opts={})
+
+    def inv0(self, v):
+        return lazy_inv(v.cx, v.old.self)
+
+    def inv1(self, v):
+        d = lazy_inv(v.cx, v.old.self)
+        d["a-counted-site-after-the-first-iteration"] = Implies(v._it1 > 0, v.cx.fields(v.old.self)["_nonempty"])
+        d["site-range"] = v.site >= v.min_site
+        return d
+
+    @property
+    def loops(self):
+        return {0: Loop("for site in range(min_site, max_site + 1)", self.inv0),
+                1: Loop("for site in range(min_site, max_site + 1)", self.inv1)}
+
+    # ---- callee use
+    def call_reqs(self, cx, a):
+        d = super().call_reqs(cx, a)
+        L = cx.fields(cx.fields(a.self)["_psi"])["L"]
+        ws = a.gate.controls + a.gate.qubits
+        d["gate-qubits-distinct-and-in-range"] = And(*([And(0 <= w, w < L) for w in ws] +
+                                                      [ws[x] != ws[y] for x in range(len(ws)) for y in range(x)]))
+        d["one-qubit-gate-unitary"] = unitary_of(cx, a.gate.array) if len(ws) == 1 else True
+        d["no-per-call-options"] = not a.gate_opts
+        return d
+
+    def modifies(self, a, case):
+        return [(a.__dict__["_psi"], ["isL", "isR"]), (a.self, ["_nonempty"])]
+
+    def fresh_result(self, cx, a, case):
+        f = cx.fields(a.self)
+        psi, info = f["_psi"], f["gate_opts"].get("info")
+        if len(a.gate.qubits) + len(a.gate.controls) >= 2:
+            # a compression may have happened first (then the record was rewritten); the operator is attached lazily
+            if isinstance(info, dict) and (is_pair(rec_of(info)) or cx.decide(cx.Bool("compressed_first"), 0)):
+                info["cur_orthog"] = (cx.Int("rec_a"), cx.Int("rec_b"))
+            self.pending(cx)[psi.oid] = (0, cx.fields(psi)["L"] - 1)
+        return None
+
+    def ensures(self, a, r, cx, case):
+        d = lazy_inv(cx, a.self)
+        if len(a.gate.qubits) + len(a.gate.controls) >= 2:
+            d["operator-left-pending-and-counted"] = And(pending_of(cx, cx.fields(a.self)["_psi"]), cx.fields(a.self)["_nonempty"])
+        return d
+
+
+# ---- methods that reach the state through overridable methods: receiver class enumerated -------------------------------
+
+CLASS_KINDS = ("mps", "perm", "lazy")
+APPLY_GATE_OF = {"mps": ApplyGate.target, "perm": PermApplyGate.target, "lazy": LazyApplyGate.target}
+GET_PSI_OF = {"mps": CircGetPsi.target, "lazy": LazyGetPsi.target}
+
+
+class ByClass(LazyMethod):
+    """inherited CircuitMPS methods whose body calls an overridable method (`self._apply_gate`, `self.psi`): the dynamic
+    class of the receiver is a case; `lazy` receivers carry the CircuitMPSLazy fields and invariant"""
+
+    def mk_by_class(self, cx, case):
+        self._cls = case.cls
+        if case.cls == "lazy":
+            return LazyMethod.mk(self, cx, case)
+        circ, psi, info = CircuitMethod.mk(self, cx, case)
+        if case.cls == "perm":
+            cx.fields(circ)["qubits"] = Perm(cx.fields(psi)["L"])
+            cx.fields(circ)["gate_opts"]["contract"] = "swap+split"
+        return circ, psi, info
+
+    def inv_of(self, cx, circ):
+        return lazy_inv(cx, circ) if self._cls == "lazy" else circuit_inv(cx, circ)
+
+    def call(self, cx, name, args, kwargs, node):
+        if name == "parse_to_gate" and args and isinstance(args[0], GateObj):
+            return args[0]
+        if name == "._apply_gate" and isinstance(args[0], Ref) and args[0].kind == "Circuit":
+            return cx.call_contract(REGISTRY[APPLY_GATE_OF[self._cls]], args[1:], kwargs, node, recv=args[0])
+        if name == "map" and isinstance(args[0], BoundMethod) and args[0].recv.kind == "Circuit":
+            return cx.Opaque("inds")
+        if name == "tuple" and len(args) == 1 and isinstance(args[0], Opaque):
+            return cx.Opaque("inds")
+        if name == ".conj" and isinstance(args[0], Ref) and args[0].kind == "MPS":
+            return cx.Opaque("bra")  # a new network; the receiver is only read
+        return super().call(cx, name, args, kwargs, node)
+
+    def attr(self, cx, base, attr, node):
+        if isinstance(base, Ref) and base.kind == "Circuit":
+            if attr == "psi":
+                # property: get_psi() of the receiver's class (CircuitPermMPS.get_psi relabels a copy: like CircuitMPS)
+                tgt = GET_PSI_OF["lazy" if self._cls == "lazy" else "mps"]
+                return cx.call_contract(REGISTRY[tgt], [], {}, node, recv=base)
+            if attr in ("ket_site_ind", "bra_site_ind"):
+                return BoundMethod(base, attr)
+        return super().attr(cx, base, attr, node)
+
+
+@register
+class CircApplyGates(ByClass):
+    """CircuitMPS.apply_gates(gates, progbar=False, **gate_opts): loop over a sequence of symbolic length, every gate goes
+    through self._apply_gate (dynamic class: CircuitMPS -> CircuitBase._apply_gate, CircuitPermMPS, CircuitMPSLazy): the
+    class invariant is the loop invariant.  (One-site gates unitary; the gates of one sequence are of one kind per case.)"""
+
+    target = f"{FC}::CircuitMPS.apply_gates"
+    floor = 30
+    raises = {"ValueError": True}
+
+    def cases(self):
+        return [NS(name=f"class={cl},gate={gk},info={ik}", cls=cl, gk=gk, ik=ik, ce=True, dk="None", pd=False)
+                for cl in CLASS_KINDS for gk in ("1q", "2q", "3q") for ik in CIRC_INFO_KINDS]
+
+    def inputs(self, cx, case):
+        circ, psi, info = self.mk_by_class(cx, case)
+        L = cx.fields(psi)["L"]
+        n = cx.Int("ngates")
+        cx.assume(n >= 0)
+
+        def getter(t):
+            g = mk_gate(cx, case.gk, L)
+            cx.assume(unitary_of(cx, g.array))
+            return g
+
+        return dict(self=circ, gates=SymIter(n, getter), progbar=False, gate_opts={})
+
+    def fork_pending(self, cx):
+        """arbitrary iteration of a CircuitMPSLazy receiver: a lazily attached operator may or may not be pending"""
+        psi = cx.ghost["circ0"]["psi"]
+        if self._cls == "lazy" and cx.decide(cx.Bool("pending_at_loop_head"), 0):
+            self.pending(cx)[psi.oid] = (0, cx.fields(psi)["L"] - 1)
+        else:
+            self.pending(cx).pop(psi.oid, None)
+        return None
+
+    def inv(self, v):
+        return self.inv_of(v.cx, v.old.self)
+
+    @property
+    def loops(self):
+        return {0: Loop("for gate in gates", self.inv, retype={"gate": self.fork_pending})}
+
+    def ensures(self, a, r, cx, case):
+        return self.inv_of(cx, a.self)
+
+    def ensures_raise(self, a, exc, cx, case):
+        if exc == "ValueError":
+            # CircuitPermMPS rejects gates on more than two qubits (unpacking ValueError, nothing touched by that gate)
+            d = {"raise-ValueError-only-for-a-3-site-gate-on-CircuitPermMPS": case.cls == "perm" and case.gk == "3q"}
+            d.update(self.inv_of(cx, a.self))
+            return d
+        return {f"no-raise-{exc}": False}
+
+
+@register
+class CircPartialTrace(ByClass):
+    """CircuitMPS.partial_trace(keep, ...): contracts a COPY (self.psi); no record is threaded: _psi and the shared record
+    are as before -- except that a CircuitMPSLazy receiver first flushes its pending operators (get_psi -> _compress)"""
+
+    target = f"{FC}::CircuitMPS.partial_trace"
+    floor = 10
+
+    def cases(self):
+        return [NS(name=f"class={cl},info={ik},pending={pd},keep={kk}", cls=cl, ik=ik, pd=pd, kk=kk, ce=True, dk="None")
+                for cl in ("mps", "lazy") for ik in CIRC_INFO_KINDS for pd in ((False, True) if cl == "lazy" else (False,))
+                for kk in ("int", "pair")]
+
+    def inputs(self, cx, case):
+        circ, psi, info = self.mk_by_class(cx, case)
+        keep = mk_where(cx, case.kk, cx.fields(psi)["L"], base="keep")
+        return dict(self=circ, keep=keep, optimize="auto-hq", backend=None, dtype=None)
+
+    def ensures(self, a, r, cx, case):
+        d = self.inv_of(cx, a.self)
+        f = cx.fields(a.self)
+        d["nothing-pending-afterwards"] = not pending_of(cx, f["_psi"])
+        if case.cls != "lazy":
+            d["shared-record-unchanged"] = same_record(cx, rec_of(f["gate_opts"].get("info")), cx.ghost["circ0"]["rec"])
+            d["_psi-untouched"] = untouched(cx, f["_psi"])
+        return d
